@@ -2,6 +2,7 @@
 mod common;
 mod pgconfig;
 mod redisconfig;
+mod redismgr;
 mod syncmgr;
 
 use std::io::BufRead;
@@ -34,6 +35,12 @@ fn main() {
                         "sqlite" => Arc::new(move |p, obs| syncmgr::run_path::<syncmgr::Sqlite>(&cfg, p, obs)),
                         _ => Arc::new(move |p, obs| syncmgr::run_path::<syncmgr::Diesel>(&cfg, p, obs)),
                     };
+                    run_all(paths, run, &args[3..]);
+                }
+                "redismgr" => {
+                    let (head, paths) = load_paths::<redismgr::Post>(file, only);
+                    let cfg: redismgr::Cfg = serde_json::from_value(head["cfg"].clone()).expect("cfg");
+                    let run: Runner<redismgr::Post> = Arc::new(move |p, obs| redismgr::run_path(&cfg, p, obs));
                     run_all(paths, run, &args[3..]);
                 }
                 k => panic!("unknown kind {}", k),
